@@ -149,27 +149,70 @@ def run(run):
         sy = S.Sym(F)
         env = {}
         sy.term(fn["body"], env)
-        for n, conds in T.paths_to(fn["body"], lambda x: T.is_call(x, "insert") and "HashSet" in x["f"]):
-            # which term level: type of the receiver of `.tid`
-            for y in T.walk(n["a"][1]):
+        def level_of(expr):
+            for y in T.walk(expr):
                 if y.get("k") == "Field" and y.get("fn") == "tid":
                     ty = F.ty(T.peel(y["e"]))
-                    lvl = ty.split("<")[-1].rstrip(">").split("::")[-1] if "Term<" in ty else ty.split("::")[-1]
-                    set_name = T.show(n["a"][0]).replace("&mut ", "")
-                    levels.setdefault(lvl, []).append((n, set_name))
+                    return ty.split("<")[-1].rstrip(">").split("::")[-1] if "Term<" in ty else ty.split("::")[-1]
+            return None
+        # recording sites: a direct `set.insert(x.tid)` or a call of a local helper that inserts its tid parameter into a set
+        # (the helper may also report the duplicate)
+        recorders = {}
+        for g in F.fns:
+            if g.get("dk") not in ("Fn", "AssocFn") or g is fn:
+                continue
+            if not (g["path"].startswith(fn["path"]) or g.get("mod") == fn.get("mod")):
+                continue
+            pids = [[b[0] for b in T.pat_bindings(p_["p"])] if p_.get("p") else [] for p_ in g["params"]]
+            for x in T.walk(g["body"]):
+                if T.is_call(x, "insert") and "HashSet" in x["f"] and len(x["a"]) == 2:
+                    ids = {y["id"] for y in T.walk(x["a"][1]) if y.get("k") in ("Var", "Upvar")}
+                    sid = T.root_var_id(x["a"][0])
+                    ti = [i for i, ps in enumerate(pids) if set(ps) & ids]
+                    si = [i for i, ps in enumerate(pids) if sid in ps]
+                    if ti:
+                        recorders[g["path"]] = (ti[0], si[0] if si else None)
+        sites = []   # (node, level, set name, kind)
+        for n in T.walk_fn(F, fn):
+            if T.is_call(n, "insert") and "HashSet" in n["f"] and len(n["a"]) == 2:
+                lvl = level_of(n["a"][1])
+                if lvl:
+                    sites.append((n, lvl, T.show(n["a"][0]).replace("&mut ", "").replace("*", ""), "insert"))
+            elif n.get("k") == "Call" and (n.get("r") in recorders or n.get("f") in recorders):
+                ti, si = recorders.get(n.get("r")) or recorders.get(n.get("f"))
+                if ti < len(n["a"]):
+                    lvl = level_of(n["a"][ti])
+                    if lvl:
+                        sites.append((n, lvl, T.show(n["a"][si]).replace("&mut ", "").replace("*", "") if si is not None and si < len(n["a"]) else "?", "helper"))
+        for n, lvl, set_name, kind in sites:
+            levels.setdefault(lvl, []).append((n, set_name))
         want = ["Program", "Sub", "Blk", "Def", "Jmp"]
         for lvl in want:
-            run.check("R2", "remove_duplicate_tids|level|%s" % lvl, lvl in levels, "the tid of term level %s is not recorded in the set of known tids: a duplicate at that level goes unnoticed" % lvl, F.loc(fn["body"]))
-        sets = {s for v in levels.values() for _, s in v}
-        run.check("R2", "remove_duplicate_tids|one-set", len(sets) == 1, "tids of different term levels are recorded in different sets %s: an id shared across levels is not detected" % sorted(sets), F.loc(fn["body"]))
-        # a failed insert must lead to drop or abort: the insert result is used as a condition
-        t = sy.term(fn["body"], {})
+            run.check("R2", "remove_duplicate_tids|level|%s" % lvl, lvl in levels, "the tid of term level %s is not recorded in the set of known tids (neither directly nor through a helper): a duplicate at that level goes unnoticed" % lvl, F.loc(fn["body"]))
+        sets = {s_ for v in levels.values() for _, s_ in v if s_ != "?"}
+        (run.holds if len(sets) == 1 else run.violated if len(sets) > 1 else run.undecided)("R2", "remove_duplicate_tids|one-set", "tids of different term levels are recorded in different sets %s: an id shared across levels is not detected" % sorted(sets), F.loc(fn["body"]))
+        # a failed insert must lead to drop or abort: the result of the recording is used as a condition (if / retain predicate)
         unused = []
+        all_nodes = list(T.walk_fn(F, fn))
         for lvl, lst in levels.items():
             for n, _ in lst:
                 if lvl == "Program":
                     continue
-                cond_use = any(x.get("k") == "If" and any(y is n for y in T.walk(x["c"])) for x in T.walk(fn["body"]))
+                cond_use = any(x.get("k") == "If" and any(y is n for y in T.walk(x["c"])) for x in all_nodes)
+                # tail of a closure passed to retain / filter
+                for c_ in F.closures(fn):
+                    body = T.peel(c_["body"])
+                    tail = body
+                    while tail.get("k") == "Block" and tail.get("e") is not None:
+                        tail = T.peel(tail["e"])
+                    if any(y is n for y in T.walk(tail)) and any(T.is_call(x, ("retain", "filter", "retain_mut")) and any(T.peel(a).get("k") == "Closure" and T.peel(a)["d"] == c_["path"] for a in x["a"]) for x in all_nodes):
+                        cond_use = True
+                # bound to a local that is then tested
+                for x in all_nodes:
+                    if x.get("k") == "LetStmt" and "i" in x and any(y is n for y in T.walk(x["i"])):
+                        ids = {b[0] for b in T.pat_bindings(x["p"])}
+                        if any(z.get("k") == "If" and any(w.get("k") == "Var" and w["id"] in ids for w in T.walk(z["c"])) for z in all_nodes):
+                            cond_use = True
                 if not cond_use:
                     unused.append(lvl)
         run.check("R2", "remove_duplicate_tids|duplicate-is-acted-on", not unused, "the result of recording a tid is ignored for level(s) %s: duplicates are kept" % unused, F.loc(fn["body"]))
@@ -222,7 +265,7 @@ def run(run):
         sy.term(fn["body"], env)
         rid = {b[0] for b in SL.slot_bindings(F, fn, "jmp::Jmp", "Call", "return_")}
         assigns = [(n, c) for n, c in T.paths_to(fn["body"], lambda x: x.get("k") == "Assign" and T.root_var_id(x["l"]) in rid)]
-        run.floor("retarget assignments", len(assigns), 2)
+        run.floor("retarget assignments", len(assigns), 1)
         sink_recv = None
         for n2 in T.walk(fn["body"]):
             if T.is_call(n2, "add_artifical_sink"):
